@@ -970,6 +970,11 @@ class Ev:
 
     def e_IfExp(self, node):
         c = self.cond(node.test)
+        cs = z3.simplify(c)
+        if z3.is_true(cs):
+            return self.expr(node.body)
+        if z3.is_false(cs):
+            return self.expr(node.orelse)
         if self.pure:
             self.guards.append(c)
             try:
